@@ -228,7 +228,8 @@ fn start(w: usize, l: usize, chain: &[String], dir: &PathBuf, sh: &Arc<Shared>, 
                         serve(s, call, w, act, sh3.clone())
                     })
                 };
-                let name = format!("s{call}");
+                // listener names in an order that is neither ascending nor descending (nothing may depend on the names)
+                let name = format!("{}{call}", ["q", "c", "x", "a", "m", "b", "z"][call % 7]);
                 let r = match it.as_bytes()[0] {
                     b'l' => {
                         let lst = StdTcpListener::bind("127.0.0.1:0").unwrap();
